@@ -86,6 +86,12 @@ func (session Session) VerifiedChipAuthStatus() ChipAuthStatus {
 		return CHIP_AUTH_STATUS_NONE
 	}
 
+	// a chip that withholds a DG14/DG15 the security object refers to, or whose EF.CardAccess is not contained
+	// in DG14, is not called authentic whatever protocol it completed
+	if session.DocumentVerifyErr != nil {
+		return CHIP_AUTH_STATUS_NONE
+	}
+
 	status := session.ChipAuthProtocolStatus()
 
 	// PACE-CAM key comes from CardSecurity — require it was independently verified
